@@ -83,6 +83,7 @@ class World(object):
             arc = mm.load(Ref.to(c), g)
             return arc.f['p'].proj(('f', 'data'))
         R('desync_scheduler::scheduler', scheduler)
+        s.nat.regt('Deref', 'deref', 'REFERENCE_CHUTE', lambda mm, th, a, g: Ref.to(s.globals[50]))
         R('initial_max_threads', lambda mm, th, a, g: BV(s.scen.get('pool_max', 0)))
         def op_inv(mm, th, a, g):
             s.gset('inv%d' % a[0].val, BV(mm.now), g, NONE_T); return UNIT
@@ -132,8 +133,10 @@ class World(object):
         def gate_open2(mm, th, a, g):
             k = a[0].val
             s.gset('gate%d' % k, TRUE, g, FALSE)
+            s.gset('gateopen_at%d' % k, BV(mm.now), g, NONE_T)
             wk = s.ghost.get('gatewaker%d' % k)
             if wk is None: return NoneV()
+            if isinstance(wk, En): s.gset('gatewoke%d' % k, TRUE, And(g, Eq(wk.disc, ONE)), FALSE)
             s.ghost['gatewaker%d' % k] = merge(g, NoneV(), wk)
             return wk
         R('__gate_open', gate_open2, visible=True)
@@ -227,6 +230,49 @@ class World(object):
                 mm.violate('use-after-drop:value:op%d' % op, And(g, Not(v.f[0])))
             return UNIT
         R('__touch', touch)
+        def stream_poll(mm, th, a, g):
+            pin = a[0]; r = pin.f[0] if isinstance(pin, St) and pin.ty == 'Pin' else pin
+            stv = mm.load(r, g)
+            if not isinstance(stv, St) or 3 not in stv.f: return POISON
+            f = stv.f; n = f[0].val; ends = f[1]; idx = f[2]; pid = f[3].val
+            pp = s.pipes[pid]
+            s.gset('stream_polled%d' % pid, TRUE, g, FALSE)
+            # item k is available when the index is k and gate k is open
+            avail = FALSE; val = ZERO; pend_any = FALSE
+            cx = mm.load(a[1], g)
+            for k in range(n):
+                gk = pp['gates'][k]
+                opened = TRUE if gk == 99 else s.ghost.get('gate%d' % gk, FALSE)
+                here = And(g, Eq(idx, BV(k)))
+                take = And(here, opened)
+                avail = Or(avail, take); val = Ite(take, BV(k), val)
+                pend = And(here, Not(opened))
+                if pend is not FALSE and gk != 99:
+                    if isinstance(cx, St):
+                        wk = s.nat.table['__waker_clone'].apply(mm, th, [cx.f['w']], pend)
+                        old = s.ghost.get('gatewaker%d' % gk, NoneV())
+                        s.ghost['gatewaker%d' % gk] = merge(pend, Some(wk), old)
+                    pend_any = Or(pend_any, pend)
+            atend = And(g, Eq(idx, BV(n)))
+            done = And(atend, ends) if isinstance(ends, E) else FALSE
+            mm.store(r.proj(('f', 2)), Ite(avail, Add(idx, ONE), idx), g)
+            s.gset('stream_ended%d' % pid, TRUE, done, FALSE)
+            # Poll<Option<usize>>: Ready(Some(k)) | Ready(None) | Pending
+            ready = Or(avail, done)
+            inner = En(OPT, Ite(avail, ONE, ZERO), {1: St(None, {0: val})})
+            return En(POLL, Ite(ready, ZERO, ONE), {0: St(None, {0: inner})})
+        R('__stream_poll', stream_poll, visible=True)
+        def dropflag(mm, th, a, g):
+            v = mm.load(a[0], g)
+            if not isinstance(v, St): return UNIT
+            k = v.f[0].val
+            nd = s.ghost.get('flagdrop%d' % k, ZERO)
+            mm.violate('dropped-twice:flag%d' % k, And(g, Ugt(nd, ZERO)))
+            s.ghost['flagdrop%d' % k] = Ite(And(g, Ult(nd, BV(3))), Add(nd, ONE), nd)
+            s.gset('flagdrop_at%d' % k, BV(mm.now), g, NONE_T)
+            return UNIT
+        R('__dropflag', dropflag)
+        R('__pipe_started', lambda mm, th, a, g: (s.gset('pipe_started%d' % a[0].val, BV(mm.now), g, NONE_T), UNIT)[1])
         def canary_drop(mm, th, a, g):
             v = mm.load(a[0], g)
             if not isinstance(v, St): return UNIT
@@ -284,15 +330,20 @@ class World(object):
             L += ['    bb%d: {' % b, '        _%d = desync_scheduler::queue() -> [return: bb%d, unwind continue];' % (10 + q, b + 1), '    }',
                   '    bb%d: {' % (b + 1), '        _4 = __set_global(const %d_usize, move _%d) -> [return: bb%d, unwind continue];' % (1 + q, 10 + q, b + 2), '    }']
             b += 2
+        if any(op[0] in ('pipe_in', 'pipe') for th_ in sc['threads'] for op in th_['ops']):
+            # pipe.rs' lazy_static REFERENCE_CHUTE: Desync<()>, created up front (lazy initialisation is not part of any property)
+            L += ['    bb%d: {' % b, '        _5 = ();', '        _6 = desync::Desync::<()>::new(move _5) -> [return: bb%d, unwind continue];' % (b + 1), '    }',
+                  '    bb%d: {' % (b + 1), '        _7 = __set_global(const 50_usize, move _6) -> [return: bb%d, unwind continue];' % (b + 2), '    }']
+            b += 2
         L += ['    bb%d: {' % b, '        return;', '    }', '}', '']
         T.append('\n'.join(L))
         opid = 0; ntasks = [0]; ncanary = [0]; s.canaries = getattr(s, 'canaries', {})
-        s.thread_specs = []
+        s.thread_specs = []; s.pipes = []
         for ti, th in enumerate(sc['threads']):
             name = th['name']
             blocks = []     # list of (stmts, term)
             def emit(stmts, term): blocks.append((stmts, term))
-            loc = [20]; futvars = {}; resvars = {}; dvars = {}
+            loc = [20]; futvars = {}; resvars = {}; dvars = {}; arcvars = set()
             def fresh():
                 loc[0] += 1; return loc[0]
             if th.get('final') or th.get('after'):
@@ -401,7 +452,12 @@ class World(object):
                         T.append(s.d_future_closure(name, oi, cl, obj, opid, fk, 40 + opid))
                     else:
                         T.append(s.d_job_closure(name, oi, cl, obj, opid, returns=(base != 'desync'), tok=40 + opid))
-                    emit(['_%d = {closure@%s} { }' % (c, cl), '_%d = &_%d' % (dr, dv)], '_%d = __op_inv(const %d_usize) -> [return: bb%d, unwind continue]' % (y, opid, len(blocks) + 1))
+                    if op[1] in arcvars:
+                        ar_ = fresh()
+                        emit(['_%d = &_%d' % (ar_, dv)], '_%d = <Arc<Desync<Canary>> as Deref>::deref(copy _%d) -> [return: bb%d, unwind continue]' % (dr, ar_, len(blocks) + 1))
+                        emit(['_%d = {closure@%s} { }' % (c, cl)], '_%d = __op_inv(const %d_usize) -> [return: bb%d, unwind continue]' % (y, opid, len(blocks) + 1))
+                    else:
+                        emit(['_%d = {closure@%s} { }' % (c, cl), '_%d = &_%d' % (dr, dv)], '_%d = __op_inv(const %d_usize) -> [return: bb%d, unwind continue]' % (y, opid, len(blocks) + 1))
                     meth = {'desync': 'desync', 'sync': 'sync', 'try_sync': 'try_sync', 'future_desync': 'future_desync'}[base]
                     emit([], '_%d = desync::Desync::<Canary>::%s::<{closure@%s}>(copy _%d, move _%d) -> [return: bb%d, unwind continue]' % (r, meth, cl, dr, c, len(blocks) + 1))
                     if base == 'future_desync':
@@ -410,6 +466,39 @@ class World(object):
                     else:
                         emit([], '_%d = __op_done(const %d_usize, move _%d) -> [return: bb%d, unwind continue]' % (x, opid, r, len(blocks) + 1))
                     opid += 1
+                elif kind == 'p_new':
+                    # Arc<Desync<Canary>>
+                    dv = fresh(); cn = fresh(); av = fresh()
+                    dvars[op[1]] = av; arcvars.add(op[1])
+                    cid = ncanary[0]; ncanary[0] += 1
+                    s.canaries[op[1]] = cid
+                    emit(['_%d = Canary { alive: const true, id: const %d_usize }' % (cn, cid)],
+                         '_%d = desync::Desync::<Canary>::new(move _%d) -> [return: bb%d, unwind continue]' % (dv, cn, len(blocks) + 1))
+                    emit([], '_%d = Arc::<desync::Desync<Canary>>::new(move _%d) -> [return: bb%d, unwind continue]' % (av, dv, len(blocks) + 1))
+                elif kind == 'p_drop':
+                    av = dvars[op[1]]
+                    emit([], '_%d = __drop_begin(const %d_usize) -> [return: bb%d, unwind continue]' % (fresh(), s.canaries[op[1]], len(blocks) + 1))
+                    emit([], '_%d = mem::drop::<Arc<Desync<Canary>>>(move _%d) -> [return: bb%d, unwind continue]' % (fresh(), av, len(blocks) + 1))
+                    emit([], '_%d = __drop_end(const %d_usize) -> [return: bb%d, unwind continue]' % (fresh(), s.canaries[op[1]], len(blocks) + 1))
+                elif kind == 'pipe_in':
+                    av = dvars[op[1]]; body = op[2] if len(op) > 2 else {}
+                    obj = 10 + s.canaries[op[1]]
+                    gates = list(body.get('gates', [99])); n = len(gates); ends = bool(body.get('ends', True))
+                    pk = body.get('proc', 'ready')
+                    base = opid
+                    for k in range(n):
+                        s.ops[opid] = dict(thread=name, tid=None, obj=obj, kind='pipe_item', idx=oi, opid=opid, tindex=ti, probe=False, gated=False, tok=40 + opid, item=k, gate=gates[k], pipe=base, wrapper=True)
+                        opid += 1
+                    pid = len(s.pipes); s.pipes.append(dict(base=base, n=n, gates=gates, ends=ends, obj=obj, thread=name, var=op[1]))
+                    cl = 'scen:%s:%d' % (name, oi)
+                    T.append(s.pipe_process_closure(name, oi, cl, obj, base, n, pk))
+                    st_ = fresh(); f1 = fresh(); f2 = fresh(); c = fresh(); a2 = fresh(); ar = fresh(); r = fresh()
+                    flds = ', '.join(['n: const %d_usize' % n, 'ends: const %s' % ('true' if ends else 'false'), 'idx: const 0_usize', 'pipe: const %d_usize' % pid, 'flag: move _%d' % f1] + ['g%d: const %d_usize' % (k, gates[k]) for k in range(n)])
+                    emit(['_%d = DropFlag { id: const %d_usize }' % (f1, 2 * pid), '_%d = DropFlag { id: const %d_usize }' % (f2, 2 * pid + 1),
+                          '_%d = GateStream { %s }' % (st_, flds), '_%d = {closure@%s} { flag: move _%d }' % (c, cl, f2), '_%d = &_%d' % (ar, av)],
+                         '_%d = <Arc<Desync<Canary>> as Clone>::clone(copy _%d) -> [return: bb%d, unwind continue]' % (a2, ar, len(blocks) + 1))
+                    emit([], '_%d = pipe::pipe_in::<Canary, GateStream, {closure@%s}>(move _%d, move _%d, move _%d) -> [return: bb%d, unwind continue]' % (r, cl, a2, st_, c, len(blocks) + 1))
+                    emit([], '_%d = __pipe_started(const %d_usize) -> [return: bb%d, unwind continue]' % (fresh(), pid, len(blocks) + 1))
                 elif kind == 'd_drop':
                     dv = dvars[op[1]]
                     emit([], '_%d = __drop_begin(const %d_usize) -> [return: bb%d, unwind continue]' % (fresh(), s.canaries[op[1]], len(blocks) + 1))
@@ -464,6 +553,24 @@ fn scen::GateFut::drop(_1: &mut GateFut) -> () {
     }
 }
 ''')
+        T.append('''fn scen::GateStream::poll_next(_1: Pin<&mut GateStream>, _2: &mut Context<'_>) -> Poll<Option<usize>> {
+    bb0: {
+        _0 = __stream_poll(copy _1, copy _2) -> [return: bb1, unwind continue];
+    }
+    bb1: {
+        return;
+    }
+}
+
+fn scen::DropFlag::drop(_1: &mut DropFlag) -> () {
+    bb0: {
+        _0 = __dropflag(copy _1) -> [return: bb1, unwind continue];
+    }
+    bb1: {
+        return;
+    }
+}
+''')
         T.append('''fn scen::Canary::drop(_1: &mut Canary) -> () {
     bb0: {
         _0 = __canary_drop(copy _1) -> [return: bb1, unwind continue];
@@ -493,6 +600,8 @@ fn scen::GateFut::drop(_1: &mut GateFut) -> () {
         s.prog.traitm[('Future', 'GateFut', 'poll')] = s.prog.byname['scen::GateFut::poll']
         s.prog.drops['GateFut'] = s.prog.byname['scen::GateFut::drop']
         s.prog.drops['Canary'] = s.prog.byname['scen::Canary::drop']
+        s.prog.drops['DropFlag'] = s.prog.byname['scen::DropFlag::drop']
+        s.prog.traitm[('Stream', 'GateStream', 'poll_next')] = s.prog.byname['scen::GateStream::poll_next']
         # threads
         init = m.add_thread('init', s.prog.byname['scen::init'], [])
         init.role = 'init'
@@ -549,6 +658,22 @@ fn scen::GateFut::drop(_1: &mut GateFut) -> () {
     }
 }
 ''' % (tname, oi, cl, 'u32' if returns else '()', obj, opid, opid, opid, obj, opid, ('        _0 = const %d_u32;\n' % tok) if returns else '')
+    def pipe_process_closure(s, tname, oi, cl, obj, base, n, pk):
+        """FnMut(&mut Canary, usize) -> BoxFuture<()>: enters the object for item k (operation base+k) and returns a future that leaves it when done"""
+        gate = pk[1] if isinstance(pk, tuple) else 99
+        L = ['fn scen::thread_%s::{closure#%d}(_1: &mut {closure@%s}, _2: &mut Canary, _3: usize) -> Pin<Box<GateFut>> {' % (tname, oi, cl)]
+        L += ['    bb0: {', '        switchInt(copy _3) -> [%s, otherwise: bb1];' % ', '.join('%d: bb%d' % (k, 4 + 3 * k) for k in range(n)), '    }',
+              '    bb1: {', '        unreachable;', '    }',
+              '    bb2: {', '        _0 = Pin::<Box<GateFut>>::new_unchecked(move _7) -> [return: bb3, unwind continue];', '    }',
+              '    bb3: {', '        return;', '    }']
+        for k in range(n):
+            b = 4 + 3 * k; opid = base + k
+            L += ['    bb%d: {' % b, '        _4 = __enter(const %d_usize, const %d_usize) -> [return: bb%d, unwind continue];' % (obj, opid, b + 1), '    }',
+                  '    bb%d: {' % (b + 1), '        _5 = __touch(copy _2, const %d_usize) -> [return: bb%d, unwind continue];' % (opid, b + 2), '    }',
+                  '    bb%d: {' % (b + 2), '        _6 = GateFut { gate: const %d_usize, op: const %d_usize, obj: const %d_usize, tok: const %d_u32, done: const false, data: copy _2 };' % (gate, opid, obj, 40 + opid),
+                  '        _7 = Box::<GateFut>::new(move _6) -> [return: bb2, unwind continue];', '    }']
+        L += ['}', '']
+        return '\n'.join(L)
     def d_future_closure(s, tname, oi, cl, obj, opid, fk, tok):
         gate = fk[1] if isinstance(fk, tuple) else 99
         return '''fn scen::thread_%s::{closure#%d}(_1: {closure@%s}, _2: &mut Canary) -> Pin<Box<GateFut>> {
